@@ -212,6 +212,9 @@ def _path_to_name(path: str) -> str:
 NJIT_NAMES = {"numba.njit", "njit", "numba.jit", "jit"}
 
 
+from .normalize import normalize_tree  # noqa: E402
+
+
 class Repo:
     def __init__(self, sources: Optional[Dict[str, str]] = None, root: str = None):
         self.root = root or REPO_ROOT
@@ -222,6 +225,7 @@ class Repo:
         for path, text in sorted(self.sources.items()):
             try:
                 tree = ast.parse(text, filename=path)
+                normalize_tree(tree)
             except SyntaxError as e:
                 self.parse_errors[path] = str(e)
                 continue
